@@ -3,6 +3,7 @@ import PsycheModel.ExprSpec
 import PsycheModel.ClimbReal
 import PsycheModel.Lemmas.Rotate
 import PsycheModel.Lemmas.Expr
+import PsycheModel.Lemmas.ExprSound
 import PsycheModel.ExprReal
 /-!
 # C06 — Expression trees respect C operator precedence and associativity
@@ -192,6 +193,69 @@ theorem pp_injective_on_ok (T : Tbl) (hT : T.Sane) (e e' : E) (h : ok T e = true
   injection h1 with h1
   exact (Prod.mk.inj h1).1.symm
 
+/-! ### The converse: whatever the parser accepts -/
+
+/-- **Nothing dropped, duplicated or reordered.**  For any tables with a single comma token: whenever a parse succeeds - at any
+level, with any fuel, on ANY token list - the tokens it consumed are exactly the printing of the tree it returns. -/
+theorem parse_consumes_printing (T : Tbl) (hc : ∀ o, T.comma o = true → o = T.commaTok) {f c : Nat} {ts : List Tok} {e : E} {rest : List Tok}
+    (h : nary T f c ts = some (e, rest)) : ts = pp T e ++ rest :=
+  (snd_all T hc f).nary _ _ _ _ h
+
+/-- **Whatever parses is derivable.**  For sane tables with a right-associative assignment level: the tree of every successful
+parse at a cutoff `c ≥ 1` is derivable by the grammar at level `c` (`okW`: the grammar predicate `ok` with the one leniency of
+the parser - C++ and model alike - that the left operand of an assignment may be any cast-expression), and the parse stopped at
+a token below the cutoff. -/
+theorem parse_result_derivable (T : Tbl) (hT : T.Sane) (hra : T.ra T.asg = true) {f c : Nat} {ts : List Tok} {e : E} {rest : List Tok}
+    (h : nary T f c ts = some (e, rest)) (hc : 1 ≤ c) : okW T e = true ∧ atLevel T c e = true ∧ hprec T rest < c :=
+  (shp_all T hT hra f).nary _ _ _ _ h hc
+
+/-- the strict grammar implies the lenient one -/
+theorem okW_of_ok (T : Tbl) : ∀ e : E, ok T e = true → okW T e = true
+  | .atom _, _ => rfl
+  | .bin o l r, h => by
+    simp only [ok, Bool.and_eq_true, decide_eq_true_eq, Bool.or_eq_true, bne_iff_ne, ne_eq] at h
+    obtain ⟨⟨⟨⟨⟨h1, hl⟩, hr⟩, hasg⟩, hokl⟩, hokr⟩ := h
+    simp only [okW, Bool.and_eq_true, decide_eq_true_eq, Bool.or_eq_true, bne_iff_ne, ne_eq]
+    exact ⟨⟨⟨⟨⟨h1, hl⟩, hr⟩, hasg.imp id (isCast_of_isUnary l)⟩, okW_of_ok T l hokl⟩, okW_of_ok T r hokr⟩
+  | .cond c t f, h => by
+    simp only [ok, Bool.and_eq_true, Bool.or_eq_true, bne_iff_ne, ne_eq] at h
+    obtain ⟨⟨⟨⟨⟨hl, hr⟩, hasg⟩, hokl⟩, hokt⟩, hokr⟩ := h
+    simp only [okW, Bool.and_eq_true, Bool.or_eq_true, bne_iff_ne, ne_eq]
+    exact ⟨⟨⟨⟨⟨hl, hr⟩, hasg.imp id (isCast_of_isUnary c)⟩, okW_of_ok T c hokl⟩, okW_of_ok T t hokt⟩, okW_of_ok T f hokr⟩
+  | .condG c f, h => by
+    simp only [ok, Bool.and_eq_true, Bool.or_eq_true, bne_iff_ne, ne_eq] at h
+    obtain ⟨⟨⟨⟨hl, hr⟩, hasg⟩, hokl⟩, hokr⟩ := h
+    simp only [okW, Bool.and_eq_true, Bool.or_eq_true, bne_iff_ne, ne_eq]
+    exact ⟨⟨⟨⟨hl, hr⟩, hasg.imp id (isCast_of_isUnary c)⟩, okW_of_ok T c hokl⟩, okW_of_ok T f hokr⟩
+  | .paren e, h => by simp only [ok] at h; simp only [okW]; exact okW_of_ok T e h
+  | .cast e, h => by
+    simp only [ok, Bool.and_eq_true] at h; simp only [okW, Bool.and_eq_true]; exact ⟨h.1, okW_of_ok T e h.2⟩
+  | .pre o e, h => by
+    simp only [ok, Bool.and_eq_true] at h; simp only [okW, Bool.and_eq_true]; exact ⟨h.1, okW_of_ok T e h.2⟩
+  | .post o e, h => by
+    simp only [ok, Bool.and_eq_true] at h; simp only [okW, Bool.and_eq_true]; exact ⟨h.1, okW_of_ok T e h.2⟩
+  | .idx e i, h => by
+    simp only [ok, Bool.and_eq_true] at h; simp only [okW, Bool.and_eq_true]; exact ⟨⟨h.1.1, okW_of_ok T e h.1.2⟩, okW_of_ok T i h.2⟩
+  | .mem d e n, h => by
+    simp only [ok, Bool.and_eq_true] at h; simp only [okW, Bool.and_eq_true]; exact ⟨h.1, okW_of_ok T e h.2⟩
+  | .call f as, h => by
+    simp only [ok, Bool.and_eq_true] at h; simp only [okW, Bool.and_eq_true]
+    exact ⟨⟨h.1.1, okW_of_ok T f h.1.2⟩, okWArgs_of_okArgs T as h.2⟩
+where
+  okWArgs_of_okArgs (T : Tbl) : ∀ as : List E, okArgs T as = true → okWArgs T as = true
+    | [], _ => rfl
+    | a :: as, h => by
+      simp only [okArgs, Bool.and_eq_true] at h; simp only [okWArgs, Bool.and_eq_true]
+      exact ⟨⟨h.1.1, okW_of_ok T a h.1.2⟩, okWArgs_of_okArgs T as h.2⟩
+
+/-- **The parser's tables: a whole expression.**  `parseExpression` accepts a token list and returns `e` only if the list is
+the printing of `e` and `e` is derivable (leniently); and it accepts the printing of every (strictly) derivable `e`, returning `e`. -/
+theorem real_expression_sound {f : Nat} {ts : List Tok} {e : E} (h : nary realT f 1 ts = some (e, [])) :
+    ts = pp realT e ∧ okW realT e = true := by
+  have h1 := parse_consumes_printing realT realT_comma_unique h
+  have h2 := parse_result_derivable realT realT_sane realT_asg_right_assoc h (Nat.le_refl _)
+  exact ⟨by simpa using h1, h2.1⟩
+
 /-! ### Non-vacuity, with the real tables -/
 def ix (k : Kind) : Nat := opTokens.idxOf k
 
@@ -232,5 +296,8 @@ example : (nary realT 40 1 [.atom 0, .op (ix .PlusToken), .atom 1, .op (ix .Equa
 example : (match nary realT 40 1 [.atom 0, .q, .atom 1, .colon, .atom 2, .q, .atom 3, .colon, .atom 4] with
     | some (e, []) => E.beq e (.cond (.atom 0) (.atom 1) (.cond (.atom 2) (.atom 3) (.atom 4))) | _ => false) = true := by decide
 example : ok realT (.call (.atom 0) [.bin (ix .CommaToken) (.atom 1) (.atom 2)]) = false := by decide
+/-- the parser's leniency is real: `( T ) a = b` parses, to a tree that is `okW` but not `ok` -/
+example : (match nary realT 40 1 [.lp, .ty, .rp, .atom 0, .op (ix .EqualsToken), .atom 1] with
+    | some (e, []) => okW realT e && !ok realT e | _ => false) = true := by decide
 
 end PsycheModel.Expr
